@@ -15,12 +15,28 @@ func init() {
 }
 
 func runC03(c *core.Ctx, o Options) {
-	c.Explanation = "V1 (must-pass-through): in DefaultUnmarshaller.Unmarshal every path that populates the target message or returns nil has passed the raw validation with a nil result; a non-nil result is returned unchanged; encoding.Unmarshal delegates to it. " +
-		"V2 (two checks): inside the raw validation `return nil` is reached only through the pass edge of declared-length == measured-length and of bytes.Equal(declared checksum bytes, recomputed checksum); a missing or non-numeric BodyLength is an error; every fail edge returns a non-nil error. " +
-		"V3 (mode independence): no branch condition of the validation or of Unmarshal depends on the strict parameter / Strict field. V4: the recomputed checksum is a call of the very function the serializer uses (whose shape is checked as in C01.S1). " +
-		"V5 (mirror arithmetic): with the serializer's layout as the shape of the input, the measured length len(d) − (len(BeginString field)+1) − (len(BodyLength field)+1) − (len(CheckSum field)+1) is the length of the BodyLength region, and the slice handed to the checksum function has the length of the checksum prefix, len(d) − len(CheckSum field) − 2; the three fields are looked up with the message's own framing tags. " +
-		"V6: the declared values are read exactly — field values are the unmodified bytes up to the next delimiter, and BodyLength/CheckSum are parsed by the strict inverses of their formatters (no trimming or padding tolerance). " +
-		"Decides that nothing is accepted unless both checks pass; does NOT decide that every damaged variant fails them (a statement about 256·n neighbours per message: e.g. a NUL byte inserted into the BeginString value changes neither the measured region nor the byte sum, and the CheckSum field is located by its first anchored occurrence)."
+	integrityRules(c)
+	c.RuleMin = map[string]int{"V1": 3, "V2": 2, "V3": 1, "V4": 3, "V5": 3, "V6": 4}
+	c.MinObl = 12
+}
+
+const c03Explanation = "V1 (must-pass-through): in DefaultUnmarshaller.Unmarshal every path that populates the target message or returns nil has passed the raw validation with a nil result; a non-nil result is returned unchanged; encoding.Unmarshal delegates to it. " +
+	"V2 (two checks): inside the raw validation `return nil` is reached only through the pass edge of declared-length == measured-length and of bytes.Equal(declared checksum bytes, recomputed checksum); a missing or non-numeric BodyLength is an error; every fail edge returns a non-nil error. " +
+	"V3 (mode independence): no branch condition of the validation or of Unmarshal depends on the strict parameter / Strict field. V4: the recomputed checksum is a call of the very function the serializer uses (whose shape is checked as in C01.S1). " +
+	"V5 (mirror arithmetic): with the serializer's layout as the shape of the input, the measured length len(d) − (len(BeginString field)+1) − (len(BodyLength field)+1) − (len(CheckSum field)+1) is the length of the BodyLength region, and the slice handed to the checksum function has the length of the checksum prefix, len(d) − len(CheckSum field) − 2; the three fields are looked up with the message's own framing tags. " +
+	"V6: the declared values are read exactly — field values are the unmodified bytes up to the next delimiter, and BodyLength/CheckSum are parsed by the strict inverses of their formatters (no trimming or padding tolerance). " +
+	"Decides that nothing is accepted unless both checks pass; does NOT decide that every damaged variant fails them (a statement about 256·n neighbours per message: e.g. a NUL byte inserted into the BeginString value changes neither the measured region nor the byte sum, and the CheckSum field is located by its first anchored occurrence)."
+
+// integrityRules are the rules V1–V6 of C03; C16 runs them as a premise (a damaged message is rejected only if the integrity
+// check sees the damage).
+func integrityRules(c *core.Ctx) {
+	if c.RulePrefix == "" {
+		c.Explanation = c03Explanation
+	}
+	integrityBody(c)
+}
+
+func integrityBody(c *core.Ctx) {
 	um := c.Func("fix/encoding", "DefaultUnmarshaller.Unmarshal")
 	vr := c.Func("fix/encoding", "validateRaw")
 	ui := c.Func("fix/encoding", "unmarshalItems")
@@ -229,8 +245,6 @@ func runC03(c *core.Ctx, o Options) {
 	// formatter — any leniency here (trimming, padding, alternative spellings) makes distinct damaged inputs read alike.
 	checkValueExtraction(c, "V6")
 	checkCodecs(c, "V6", map[string]bool{"frombytes": true, "type:Int": true, "type:String": true})
-	c.RuleMin = map[string]int{"V1": 3, "V2": 2, "V3": 1, "V4": 3, "V5": 3, "V6": 4}
-	c.MinObl = 12
 }
 
 // dependsOnMode: the condition value is computed (without going through calls) from the strict parameter or the Strict field.
